@@ -525,3 +525,110 @@ def reach_py(n, edges, I0, R0):
             if a == u and b not in R0 and a not in R0 and b not in seen:
                 seen.add(b); todo.append(b)
     return seen
+
+
+# ------------------------------------------------ cross-cutting theorems (C04/C09/C10) ----
+# Props/C04esir.v, Props/C09esir.v, Props/C10esir.v: the per-simulator theorems of the
+# cross-cutting properties for fast_nonMarkov_SIR / fast_SIR (every tie policy).  The two
+# decidable checkers of coq/Model/EventSIRChk.v (`wf_trajb`: C04, `tx_validb`: C09) are
+# extracted into the component 'esirx' and applied here to the IMPLEMENTATION's outputs.
+# Coq: every run of the model passes them (C04_esir_checker_accepts_every_run,
+# C09_esir_checker_accepts_every_run) and acceptance means the clauses of the property
+# (C04_esir_checker_sound, C09_esir_checker_sound).  Nothing above this line uses what follows.
+XCOMP = 'esirx'
+XPROPS = ('C04esir', 'C09esir', 'C10esir')
+
+
+def xprops():
+    """rebuild and re-check the three theorem files; {name: check_props result}"""
+    return {p: C.check_props(p) for p in XPROPS}
+
+
+def xchk_line(case, rows=None, trans=None, hist=None):
+    """XCHK command of ocaml/esirx_driver.ml: the extracted checkers applied to GIVEN outputs
+    (rows: [(time, [S, I, R])], trans: [(time, src id | None, tgt id)], hist: {id: [(time, code)]},
+    ids = gc.idmap)"""
+    gc = case['gc']; im = gc.idmap
+    nl = lambda l: '%d %s' % (len(l or []), ' '.join(str(im[u]) for u in (l or [])))
+    toks = ['XCHK', gc.tokens(), nl(iter_i0(case)), nl(case['r0']), C.qtok(case['tmin']), R.opt_q(case['tmax']),
+            table_tokens(case)]
+    if rows is None:
+        toks.append('0')
+    else:
+        toks.append('1 %d %s' % (len(rows), ' '.join('%s %d %d %d' % (C.qtok(F(t)), c[0], c[1], c[2]) for t, c in rows)))
+    if trans is None:
+        toks.append('0')
+    else:
+        toks.append('1 %d %s' % (len(trans), ' '.join(
+            '%s %s %d' % (C.qtok(F(t)), '0' if s is None else '1 %d' % s, v) for t, s, v in trans)))
+    if hist is None or any(isinstance(h, str) for h in hist.values()):
+        toks.append('0')
+    else:
+        n = len(gc.order)
+        toks.append('1 %d %s' % (n, ' '.join('%d %s' % (len(hist[i]), ' '.join('%s %d' % (C.qtok(F(t)), s) for t, s in hist[i])) for i in range(n))))
+    return ' '.join(toks)
+
+
+def xlog_line(case):
+    gc = case['gc']; im = gc.idmap
+    nl = lambda l: '%d %s' % (len(l or []), ' '.join(str(im[u]) for u in (l or [])))
+    return ' '.join(['XLOG', gc.tokens(), nl(iter_i0(case)), nl(case['r0']), C.qtok(case['tmin']), R.opt_q(case['tmax']),
+                     table_tokens(case)])
+
+
+def xchk_parse(line):
+    """'OK okb2=b traj=b|- tx=b|- cons=b|-' -> {'okb2': bool, 'traj': .., 'tx': .., 'cons': bool|None} ('fail' on a driver failure)"""
+    if not line or not line.startswith('OK'):
+        return {'fail': line}
+    d = {}
+    for tok in line.split()[1:]:
+        k, v = tok.split('=')
+        d[k] = None if v == '-' else v == '1'
+    return d
+
+
+def xchk_domain(case):
+    """inside the domain of the theorems (esir_okb2): table rules, initial_infecteds given
+    and duplicate-free (always: sampled without replacement), not both rho and infecteds"""
+    return case['kind'] == 'NM' and case['i0'] is not None and case['rho'] is None
+
+
+def xchk_impl(EoN, sim, cases):
+    """run the implementation in both return modes on each case and apply the extracted
+    checkers to ITS outputs: wf_trajb to the plain arrays, tx_validb to transmissions(),
+    consistent_b (Model/Investigation.v) to (node histories of the full-data run, plain arrays).
+    Returns [(case, verdict, plain, full)]; verdict as xchk_parse (plus 'impl_failed' when the
+    implementation raised or returned unusable outputs: then only okb2 is judged), or {'skip': why}."""
+    lines, runs = [], []
+    for case in cases:
+        if not xchk_domain(case):
+            runs.append((case, {'skip': 'outside esir_okb2'}, None, None, {})); continue
+        plain = run_impl(EoN, sim, case, [], full=False)
+        full = run_impl(EoN, sim, case, [], full=True)
+        bad = None
+        if plain['status'] != 'OK' or full['status'] != 'OK' or isinstance(plain.get('rows'), (str, tuple)) or isinstance(full.get('trans'), str):
+            bad = (plain['status'], plain.get('err'), plain.get('rows') if isinstance(plain.get('rows'), (str, tuple)) else None,
+                   full['status'], full.get('err'), full.get('trans') if isinstance(full.get('trans'), str) else None)
+        fin = lambda x: x == x and abs(x) != INF
+        nonfin = {}
+        if not bad:
+            # an infinite or NaN time cannot be a rational: such a section is rejected outright
+            if not all(fin(t) for t, _ in plain['rows']): nonfin['traj'] = False
+            if not all(fin(t) for t, _, _ in full['trans']): nonfin['tx'] = False
+            if not all(fin(t) for h in full['hist'].values() if not isinstance(h, str) for t, _ in h): nonfin['cons'] = False
+        runs.append((case, bad, plain, full, nonfin))
+        lines.append(xchk_line(case) if bad else xchk_line(case, None if 'traj' in nonfin else plain['rows'],
+                                                           None if 'tx' in nonfin else full['trans'],
+                                                           None if 'cons' in nonfin else full['hist']))
+    outs = C.run_model(lines, XCOMP) if lines else []
+    it = iter(outs)
+    res = []
+    for c, v, p, f, nonfin in runs:
+        if isinstance(v, dict):                      # skipped: outside the domain
+            res.append((c, v, p, f)); continue
+        d = xchk_parse(next(it))
+        if v is not None: d['impl_failed'] = v       # the implementation did not return usable outputs
+        if nonfin and 'fail' not in d:
+            d.update(nonfin); d['nonfinite_time'] = sorted(nonfin)
+        res.append((c, d, p, f))
+    return res
